@@ -95,3 +95,73 @@ func verifLemmaCloneIndependent2(s *Seq, i int, l alphabet.QLetter) (c *Seq) {
 	s.Set(i, l)
 	return c
 }
+
+// ---- QSeq -------------------------------------------------------------------------
+//@ func (*QSeq).RevComp
+//@   property C05
+//@   requires s != nil && complementing(s.Alpha, arr(s.Seq), s.Strand)
+//@   ensures [shape]     len(s.Seq) == old(len(s.Seq)) && arr(s.Seq) == old(arr(s.Seq)) && off(s.Seq) == old(off(s.Seq))
+//@   ensures [letters]   forall k int :: 0 <= k && k < len(s.Seq) ==> s.Seq[k].L == ctab(s.Alpha, old(s.Seq[len(s.Seq)-1-k].L))
+//@   ensures [qualities] forall k int :: 0 <= k && k < len(s.Seq) ==> s.Seq[k].Q == old(s.Seq[len(s.Seq)-1-k].Q)
+//@   ensures [strand]    s.Strand == -old(s.Strand) && s.Offset == old(s.Offset) && s.Alpha == old(s.Alpha)
+//@   assigns s.Seq[*], s.Strand
+//@   loop 1 invariant 0 <= i && j == len(l)-1-i && i <= j+1 && l == old(s.Seq) && len(comp) == 256 && arr(comp) == tabArr(s.Alpha)
+//@   loop 1 invariant forall b int :: 0 <= b && b < 256 ==> comp[b] == ctab(s.Alpha, b)
+//@   loop 1 invariant forall k int :: 0 <= k && k < i ==> l[k].L == ctab(s.Alpha, old(s.Seq[len(l)-1-k].L)) && l[len(l)-1-k].L == ctab(s.Alpha, old(s.Seq[k].L))
+//@   loop 1 invariant forall k int :: 0 <= k && k < i ==> l[k].Q == old(s.Seq[len(l)-1-k].Q) && l[len(l)-1-k].Q == old(s.Seq[k].Q)
+//@   loop 1 invariant forall k int :: i <= k && k <= j ==> l[k] == old(s.Seq[k])
+//@   loop 1 decreases j - i + 1
+
+//@ func (*QSeq).Reverse
+//@   property C05
+//@   requires s != nil
+//@   ensures [shape]   len(s.Seq) == old(len(s.Seq)) && arr(s.Seq) == old(arr(s.Seq)) && off(s.Seq) == old(off(s.Seq))
+//@   ensures [letters] forall k int :: 0 <= k && k < len(s.Seq) ==> s.Seq[k] == old(s.Seq[len(s.Seq)-1-k])
+//@   ensures [strand]  s.Strand == 0 && s.Offset == old(s.Offset)
+//@   assigns s.Seq[*], s.Strand
+//@   loop 1 invariant 0 <= i && j == len(l)-1-i && i <= j+1 && l == old(s.Seq)
+//@   loop 1 invariant forall k int :: 0 <= k && k < i ==> l[k] == old(s.Seq[len(l)-1-k]) && l[len(l)-1-k] == old(s.Seq[k])
+//@   loop 1 invariant forall k int :: i <= k && k <= j ==> l[k] == old(s.Seq[k])
+//@   loop 1 decreases j - i + 1
+
+//@ func (*QSeq).Clone
+//@   property C05
+//@   requires s != nil
+//@   ensures [fresh]   typeis(result, *QSeq) && fresh(ref(result)) && (fresh(result.(*QSeq).Seq) || len(s.Seq) == 0)
+//@   ensures [letters] len(result.(*QSeq).Seq) == len(s.Seq) && forall k int :: 0 <= k && k < len(s.Seq) ==> result.(*QSeq).Seq[k] == s.Seq[k]
+//@   ensures [annot]   result.(*QSeq).Annotation == s.Annotation && result.(*QSeq).Threshold == s.Threshold && result.(*QSeq).Encode == s.Encode
+//@   assigns fresh
+
+//@ func (*QSeq).Set
+//@   property C05
+//@   requires s != nil && 0 <= i - s.Offset && i - s.Offset < len(s.Seq)
+//@   ensures s.Seq[i - s.Offset] == l && result == nil
+//@   ensures forall k int :: 0 <= k && k < len(s.Seq) && k != i - s.Offset ==> s.Seq[k] == old(s.Seq[k])
+//@   assigns s.Seq[*]
+
+//@ func verifLemmaQRevCompTwice
+//@   property C05
+//@   lemma
+//@   requires s != nil && complementing(s.Alpha, arr(s.Seq), s.Strand)
+//@   requires forall k int :: 0 <= k && k < len(s.Seq) ==> paired(s.Alpha, s.Seq[k].L)
+//@   ensures  len(s.Seq) == old(len(s.Seq)) && forall k int :: 0 <= k && k < len(s.Seq) ==> s.Seq[k] == old(s.Seq[k])
+//@   ensures  s.Strand == old(s.Strand) && s.Offset == old(s.Offset)
+func verifLemmaQRevCompTwice(s *QSeq) { s.RevComp(); s.RevComp() }
+
+//@ func verifLemmaQReverseTwice
+//@   property C05
+//@   lemma
+//@   requires s != nil
+//@   ensures  len(s.Seq) == old(len(s.Seq)) && forall k int :: 0 <= k && k < len(s.Seq) ==> s.Seq[k] == old(s.Seq[k])
+func verifLemmaQReverseTwice(s *QSeq) { s.Reverse(); s.Reverse() }
+
+//@ func verifLemmaQCloneIndependent
+//@   property C05
+//@   lemma
+//@   requires s != nil && 0 <= i - s.Offset && i - s.Offset < len(s.Seq)
+//@   ensures  forall k int :: 0 <= k && k < len(s.Seq) ==> s.Seq[k] == old(s.Seq[k])
+func verifLemmaQCloneIndependent(s *QSeq, i int, l alphabet.QLetter) seq.Sequence {
+	c := s.Clone().(*QSeq)
+	c.Set(i, l)
+	return c
+}
